@@ -226,6 +226,22 @@ CHECKS = {
         note="The covered set for `annotate -r` is the tool's own lint listing before the command (C03's subject); .git/ is "
              "excluded from snapshots; the network is a stub that always succeeds.",
         ref="5/C15"),
+    "C16": dict(
+        technique="TLA+ classification of the REUSE.toml shape matrix and of further malformed-input classes into valid / "
+                  "invalid / grey with the required outcome (Config.tla: Class, ClassOf, Outcome), enumerated by TLC (all "
+                  "single and double deviations); every cell written as real TOML / bytes and run through every sub-command; "
+                  "TLC trace validation of exit status, escaped exceptions and diagnostics",
+        text="Every key x value-shape cell of REUSE.toml (one deviation: complete x 7 sub-commands; two deviations: quick a "
+             "seeded sample, thorough all) and 18 other classes (broken / non-UTF-8 TOML and dep5, duplicate keys, nested bad "
+             "REUSE.toml, dep5 together with REUSE.toml, covered files with NULs / invalid UTF-8 / a 1 MB line / an unparseable "
+             "expression, unreadable and vanishing files, non-UTF-8 LicenseRef text and .license, broken template) are fed "
+             "to lint (3 formats), spdx, lint-file, annotate, download --all and convert-dep5; TLC checks: no exception "
+             "escapes, exit status in {0,1,2}, invalid configuration gives exit 2 and a message naming the file, valid "
+             "input is not rejected, an unreadable covered file is a read error or lacks information and the run completes.",
+        note="Exceptions are observed at the click entry point in-process and, for a sample, as tracebacks of the real "
+             "executable; read faults are injected by an audit hook; the valid/invalid/grey table is this check's reading "
+             "of REUSE specification 3.3.",
+        ref="5/C16"),
     "C03": dict(
         technique="TLA+ requirement CoverReq (three-valued: must / must not / unpinned) vs walk-with-pruning mechanism "
                   "model-checked by TLC; TLC-enumerated directory-context x name-class x type x VCS-wish nodes built as "
